@@ -95,9 +95,9 @@ func l2(pat []int) {
 	}
 }
 
-func L2Single()  { l2([]int{0}) }
-func L2Pair()    { l2([]int{0, 1}) }
-func L2PairDup() { l2([]int{0, 0}) }
-func L2Triple()  { l2([]int{0, 1, 2}) }
+func L2Single()             { l2([]int{0}) }
+func L2Pair()               { l2([]int{0, 1}) }
+func L2PairDup()            { l2([]int{0, 0}) }
+func L2Triple()             { l2([]int{0, 1, 2}) }
 func L2TripleDupFirstLast() { l2([]int{0, 1, 0}) }
 func L2TripleDupAdjacent()  { l2([]int{1, 0, 0}) }
